@@ -17,8 +17,8 @@ from models import bencode_ref as REF
 ID = "C19"
 ENGINE = "netsim"
 LEVEL = "fault_enumeration"
-TIERS = {"quick": {"runs": 3200, "timeout": 1500}, "thorough": {"runs": 80000, "timeout": 7200,
-                                                                "lane_timeout": 2400}}
+TIERS = {"quick": {"runs": 3200, "timeout": 3600, "lane_timeout": 1800}, "thorough": {"runs": 80000, "timeout": 21600,
+                                                                "lane_timeout": 10800}}
 EST_STEPS = [100, 400, 1500]
 MAX_STEPS = 200000
 _st = {}
